@@ -1,12 +1,12 @@
 (* Leaf/TransposeSpecs3a.v — _mzd_copy_transpose_small (mzd.c:944), size class 32 < maxsize < 64
    (_mzd_copy_transpose_le64xle64, mzd.c:924, which pads to 64 rows and calls _mzd_copy_transpose_64x64 in
-   place): every (nrows, ncols) of the class with nrows in 1..40, row strides 1.  The sweep is split over
-   two files to keep each under three minutes.  See Leaf/TransposeSpecs2.v. *)
+   place): every (nrows, ncols) of the class with nrows in 1..36, row strides 1.  The sweep is split over
+   three files to keep each well under three minutes.  See Leaf/TransposeSpecs2.v. *)
 From Coq Require Import ZArith NArith List String Bool Lia.
 From M4 Require Import Leaf.CMini Leaf.CMiniSymS Leaf.Gen_transpose Leaf.TransposeSpecs Leaf.TransposeSpecs2.
 Import ListNotations.
 Local Open Scope Z_scope.
 
 Lemma small_le64_sweep_a :
-  forallb (fun n => forallb (fun m => (Nat.max n m <=? 32)%nat || chk_small 1 1 n m) (seq 1 63)) (seq 1 40) = true.
+  forallb (fun n => forallb (fun m => (Nat.max n m <=? 32)%nat || chk_small 1 1 n m) (seq 1 63)) (seq 1 36) = true.
 Proof. vm_cast_no_check (eq_refl true). Qed.
